@@ -18,7 +18,7 @@ impl V {
         match self {
             V::Null => json!({"t": "n"}),
             V::Int(i) => json!({"t": "i", "v": i}),
-            V::Text(s) => json!({"t": "s", "v": s.chars().map(|c| c as u32).collect::<Vec<_>>()}),
+            V::Text(s) => text_json(s),
             V::Bool(b) => json!({"t": "b", "v": b}),
             V::F2(i) => json!({"t": "f", "v": i}),
         }
@@ -35,9 +35,21 @@ impl V {
 }
 
 /// engine output value (eng::val) -> spec value: text becomes a code point sequence
+/// TEXT as the specification carries it: its code points - except for a long run of one character (the filler of the
+/// long-row workloads), which is carried as that character and its length (`rep`), so that TLC does not hold thousands of
+/// integers per value. Such values are only compared for equality and by (character, length).
+pub fn text_json(s: &str) -> Value {
+    let mut it = s.chars();
+    if let Some(c) = it.next() {
+        let n = s.chars().count();
+        if n >= 256 && it.all(|x| x == c) { return json!({"t": "s", "v": [c as u32], "rep": n}); }
+    }
+    json!({"t": "s", "v": s.chars().map(|c| c as u32).collect::<Vec<_>>()})
+}
+
 pub fn out_val(v: &Value) -> Value {
     if v["t"] == "s" {
-        json!({"t": "s", "v": v["v"].as_str().unwrap_or("").chars().map(|c| c as u32).collect::<Vec<_>>()})
+        text_json(v["v"].as_str().unwrap_or(""))
     } else {
         v.clone()
     }
